@@ -1060,7 +1060,13 @@ class Message(ABC):
                     sk = _serialize_single(1, meta.map_types[0], k)
                     sv = _serialize_single(2, meta.map_types[1], v)
                     stream.write(
-                        _serialize_single(meta.number, meta.proto_type, sk + sv)
+                        _serialize_single(
+                            meta.number,
+                            meta.proto_type,
+                            sk + sv,
+                            # An entry with default key and value is still an entry.
+                            serialize_empty=True,
+                        )
                     )
             else:
                 # If we have an empty string and we're including the default value for
@@ -1165,7 +1171,9 @@ class Message(ABC):
                     assert meta.map_types
                     sk = _serialize_single(1, meta.map_types[0], k)
                     sv = _serialize_single(2, meta.map_types[1], v)
-                    size += _len_single(meta.number, meta.proto_type, sk + sv)
+                    size += _len_single(
+                        meta.number, meta.proto_type, sk + sv, serialize_empty=True
+                    )
             else:
                 # If we have an empty string and we're including the default value for
                 # a oneof, make sure we serialize it. This ensures that the byte string
